@@ -46,6 +46,13 @@ def pEv : P Ev := do
   else if t = "I" then do let c ← nat; pure (.invoke c)
   else if t = "Y" then do let s ← nat; let l ← nat; pure (.shutdownHung s l)
   else if t = "NOPV" then do let s ← nat; pure (.noPreVote s)
+  else if t = "LV" then do
+    let s ← nat; let l ← nat; let v ← nat; let ci ← nat; let st ← nat; let k ← nat
+    pure (.electedAs s l (v ≠ 0) ci st (k ≠ 0))
+  else if t = "MAJ" then do let tt ← nat; let n ← nat; let ok ← nat; pure (.majority tt n (ok ≠ 0))
+  else if t = "REJOIN" then do
+    let s ← nat; let t0 ← nat; let l0 ← nat; let tm0 ← nat; let t1 ← nat; let l1 ← nat; let tm1 ← nat
+    pure (.rejoin s t0 l0 tm0 t1 l1 tm1)
   else if t = "LC" then do
     let s ← nat; let l ← nat; let v ← nat; let il ← nat
     pure (.leaderCh s l (if v = 2 then none else some (v ≠ 0)) (il ≠ 0))
@@ -72,24 +79,24 @@ def parseHist (line : String) : Option (List Ev) :=
 abbrev CMon := List Ev → Option String
 
 def cmonFor : String → List CMon
-  | "C01" => [oneSenderPerTerm, oneGrantPerTerm, configGated]
+  | "C01" => [oneSenderPerTerm, oneGrantPerTerm, configGated, nonVoterNeverElected]
   | "C02" => [streamsAgree, streamsInOrder]
   | "C03" => [ackedSurvive, streamsAgree, currentTermRule, configGated]
   | "C04" => [logsAgree, termsMonotone, retainedAgree]
   | "C05" => [commitLeLast, currentTermRule, ackedSurvive, streamsAgree]
-  | "C07" => [configGated]
-  | "C14" => [isolatedTermConstant]
+  | "C07" => [configGated, nonVoterNeverElected]
+  | "C14" => [isolatedTermConstant, rejoinQuiet]
   | "C08" => [failedRestoreResidue, clientOutcomes, barrierOK, ackedSurvive, streamsAgree]
   | "C09" => [verifyFresh]
   | "C13" => [leaseStepDown, calmStable]
   | "C20" => [failedRestoreResidue, restoreOK, finalStatesEqual, allResolved]
   | "C10" => [restartable, streamsInOrder]
   | "C11" => [restartable, ackedSurvive]
-  | "C12" => [converged]
+  | "C12" => [converged, majorityElects]
   | "C17" => [allResolved, shutdownCompletes]
   | "C18" => [notifyAlternates, leaderChLatest]
   | _ => [oneSenderPerTerm, oneGrantPerTerm, streamsAgree, streamsInOrder, clientOutcomes, barrierOK, ackedSurvive,
-          logsAgree, termsMonotone, retainedAgree, commitLeLast, converged, allResolved, notifyAlternates, verifyFresh, configGated, currentTermRule, isolatedTermConstant, restartable, shutdownCompletes, leaderChLatest]
+          logsAgree, termsMonotone, retainedAgree, commitLeLast, converged, allResolved, notifyAlternates, verifyFresh, configGated, currentTermRule, isolatedTermConstant, restartable, shutdownCompletes, leaderChLatest, nonVoterNeverElected, majorityElects, rejoinQuiet]
 
 def cJudgeWith (ms : List CMon) (_caseLine implLine : String) : String :=
   match parseHist implLine with
